@@ -264,6 +264,7 @@ def carr_size(interp, c):
         lo = sum(1 for m in c.mask if simp_bool(m) is True)
         hi = sum(1 for m in c.mask if simp_bool(m) is not False)
         interp.int_bounds[tot.get_id()] = (lo, hi)
+        interp._alive.append(tot)
     return tot
 
 
@@ -314,6 +315,7 @@ def carr_to_arr(interp, st, c):
 
 def make_compact(interp, st, elems, mask, dtype):
     mask = [simp_bool(m) if V.is_boolish(m) else interp.A.truthy(m) for m in mask]
+    mask = [m if isinstance(m, bool) else interp.decide(st, m) for m in mask]
     return carr_to_arr(interp, st, CArr(elems, mask, dtype))
 
 
@@ -1124,6 +1126,7 @@ def np_searchsorted(interp, st, a, v, side="left", **kw):
             tot = A.add(tot, V.num_of_bool(interp.scalar_compare(st, op, y, x)))
         if is_sym(tot):
             interp.int_bounds[tot.get_id()] = (0, len(vals))
+            interp._alive.append(tot)
         return tot
     if isinstance(v, Arr):
         return _mk(interp, st, v.shape, "int64", [one(x) for x in interp.arr_values(st, v)])
